@@ -233,6 +233,8 @@ async def scenario_h2(env: Any, case: Dict[str, Any]) -> Any:
         body = body_of(req)
         trunc = case.get("truncate") if last else None
         hs = h2_headers(req, "https" if alpn else "http")
+        if client.goaway is not None or client.error:
+            break  # the server has ended the connection: the judge sees what was not served
         if case.get("late_upload") and not last:
             sid = client.request(hs, end_stream=False)
             for _ in range(40):  # the whole response first ...
